@@ -110,3 +110,54 @@ Print Assumptions wf_proto_all.
 Theorem C07_statement_partial : forall p, wf_proto p = true -> C07_consequences p.
 Proof. exact C07_statement_partial_lemma. Qed.
 Print Assumptions C07_statement_partial.
+
+(* ---------------------------------------------------------------------------------------------
+   7. Run level, on the FULL VM model (coq/VMX: the transcription of _vm.go/_state.go that C01-C03
+      tie to the real VM by differential runs), not on the skeleton. "Out of range" = the model
+      codes 103 Code, 104 Constants, 105 upvalue slots, 106 FunctionPrototypes ([oob]).
+      Proved: (a) all 42 instruction functions, incl. OP_TFORLOOP, read those tables in range at an
+      instruction the checker accepted, provided the re-entered main loop returns to the caller's
+      frame (ml_keeps_caller_pc); (b) in every run, with any fuel, incl. coroutines, pcall and
+      setfenv, every closure of the machine has exactly NumUpvalues upvalue slots and an accepted
+      prototype (this discharges the hypothesis closure_ok of (a) at run level).
+      NOT proved: the pc invariant (every frame's pc is an instruction head) and the frame-stack
+      discipline of the main loop at run level; the run-level statement is the Definition
+      RunSafe.wf_run_noob_statement. See notes/VMX.md. *)
+From GL Require Import VMX.Machine VMX.Step VMX.VRun VMX.WfTie VMX.RunSafe.
+From GL Require VMX.WfTieFacts VMX.RunSafeFacts VMX.HeapSafeFacts.
+
+Theorem wf_exec_op_noob_all : forall ml gf,
+  (forall b, noob (ml b)) -> (forall b, noob (gf b)) -> ml_keeps_caller_pc ml ->
+  forall cl cf inst base o,
+  closure_ok cl ->
+  xp_nregs (cl_proto cl) <= frame_limit ->
+  0 <= fr_pc cf - 1 ->
+  op_of_code (opGetOpCode inst) = Some o ->
+  inst_ok (WfTieFacts.fn_of (cl_proto cl)) (tags_of (WfTieFacts.fn_of (cl_proto cl))) (fr_pc cf - 1) inst = true ->
+  noob_on (fun s => top_pc s = Some (fr_pc cf)) (exec_op ml gf cl cf inst base).
+Proof. exact RunSafeFacts.wf_exec_op_noob_all_lemma. Qed.
+Print Assumptions wf_exec_op_noob_all.
+
+Theorem wf_step_noob_all : forall ml gf cl cf inst base,
+  (forall b, noob (ml b)) -> (forall b, noob (gf b)) -> ml_keeps_caller_pc ml ->
+  wf_fn (WfTieFacts.fn_of (cl_proto cl)) = true ->
+  closure_ok cl ->
+  pc_ok (WfTieFacts.fn_of (cl_proto cl)) (fr_pc cf - 1) ->
+  zth (xp_code (cl_proto cl)) (fr_pc cf - 1) = Some inst ->
+  noob_on (fun s => top_pc s = Some (fr_pc cf)) (exec_op ml gf cl cf inst base).
+Proof. exact RunSafeFacts.wf_step_noob_all_lemma. Qed.
+Print Assumptions wf_step_noob_all.
+
+Theorem exec_op_heap_ok : forall ml gf,
+  (forall b, ipres heap_ok (ml b)) -> (forall b, ipres heap_ok (gf b)) ->
+  forall cl cf inst base, clos_good cl -> ipres heap_ok (exec_op ml gf cl cf inst base).
+Proof. exact HeapSafeFacts.exec_op_heap_ok_lemma. Qed.
+Print Assumptions exec_op_heap_ok.
+
+Theorem mainLoop_heap_ok : forall n base, ipres heap_ok (mainLoop n base).
+Proof. exact HeapSafeFacts.mainLoop_heap_ok_lemma. Qed.
+Print Assumptions mainLoop_heap_ok.
+
+Theorem run_heap_ok : forall p fuel, chunk_ok p -> heap_ok_fin (run_proto fuel p).
+Proof. exact HeapSafeFacts.run_heap_ok_lemma. Qed.
+Print Assumptions run_heap_ok.
